@@ -1,4 +1,5 @@
 /- `svg` lines: SvgBuilder renderings judged for C12 (document) and C18 (frame geometry) -/
+import FastQr.Model.SvgCustom
 import Driver.Common
 import Driver.RenderOps
 import FastQr.Model.Svg
@@ -193,7 +194,9 @@ def opSvgCmd (args res : List String) : Verdict :=
        let got := match s.splitOn "<path d=\"" with
          | _ :: rest :: _ => (rest.splitOn "\"").headD ""
          | _ => "<no path element>"
-       { spec := cmp "custom-command-layer" expected got })
+       -- the Lean model of a custom layer (Model.Svg.customPathD) with the same echo command
+       let modelD := Svg.customPathD (fun y x b => s!"M{x},{y}h{b}v1") m ⟨n, a⟩
+       { spec := cmp "custom-command-layer" expected got, model := cmp "custom-layer" modelD got })
   | _, "trap" :: _ => { spec := some "to_str-panicked", model := some "trap" }
   | _, "nobuild" :: _ => {}
   | _, _ => { spec := some "bad-line" }
